@@ -381,7 +381,42 @@ def rule_single_pass_(ctx: Ctx, rep: Report) -> None:
     rule_single_pass(ctx, rep, "C07.single_pass", ('btclib.bip32',), 1)
 
 
+def rule_path_is_walked_as_stated(ctx: Ctx, rep: Report) -> None:
+    """C07.path_is_walked_as_stated: derive(key, path) applies the path's indexes to
+    the key, all of them, in order -- that is what makes one call equal to any
+    split of it. In `_derive` the list `indexes_from_der_path` answered is what
+    the loop walks: the local is bound once and never re-bound to a part of
+    itself (a "the key is already partway down this path" short cut makes
+    derive(xpub_at_depth_3, "m/44h/0h/0h/0/5") skip the first three steps when
+    the third index happens to match). And a path spelled as bytes is a
+    sequence of 4-byte indexes: nothing in the der_path module decodes a bytes
+    path as text."""
+    rule = "C07.path_is_walked_as_stated"
+    fi = ctx.func("btclib.bip32.bip32._derive")
+    binds = [a for a in own_nodes(fi.node) if isinstance(a, ast.Assign) and isinstance(a.targets[0], ast.Name) and isinstance(a.value, ast.Call) and call_name(a.value) == "indexes_from_der_path"]
+    if len(binds) != 1:
+        rep.unknown(rule, "_derive:indexes", fi.where(), f"{len(binds)} bindings of the path's indexes")
+    else:
+        nm = binds[0].targets[0].id
+        again = [a for a in own_nodes(fi.node) if isinstance(a, (ast.Assign, ast.AugAssign)) and a is not binds[0] and any(isinstance(t, ast.Name) and t.id == nm for t in (a.targets if isinstance(a, ast.Assign) else [a.target]))]
+        rep.ob(rule, "_derive:indexes_bound_once", not again, fi.where(again[0] if again else binds[0]), "what the path says is what is walked" if not again else
+               f"`{norm(again[0])[:70]}` re-binds the indexes of the path after they were read: some of the steps the caller wrote are not taken")
+        used = [x for x in own_nodes(fi.node) if isinstance(x, ast.Name) and x.id == nm and isinstance(x.ctx, ast.Load)]
+        rep.ob(rule, "_derive:walks_them", bool(used), fi.where(), f"the indexes are read {len(used)} times after they were bound")
+    for q, f2 in sorted(ctx.prog.functions.items()):
+        if not q.startswith("btclib.bip32.der_path."):
+            continue
+        a_ = f2.node.args
+        dp = {p_.arg for p_ in a_.posonlyargs + a_.args if p_.arg == "der_path" or (p_.annotation is not None and "DerPath" in str(norm(p_.annotation)))}
+        for c in own_nodes(f2.node):
+            if isinstance(c, ast.Call) and isinstance(c.func, ast.Attribute) and c.func.attr == "decode" and {x.id for x in ast.walk(c.func.value) if isinstance(x, ast.Name)} & dp:
+                rep.ob(rule, f"{q}:bytes_are_indexes", False, f2.where(c), f"`{norm(c)[:60]}` reads a bytes path as text: b\"m/0h\" is the four bytes of one index, and becomes another path")
+    rep.floor(rule, 2)
+
+
 RULES = [
+    ("C07.path_is_walked_as_stated", rule_path_is_walked_as_stated),
+
     ("C07.no_stale_cache", rule_no_stale_cache_),
     ("C07.single_pass", rule_single_pass_),
 
